@@ -494,20 +494,24 @@ fn op(
                 );
             }
             (Temporary::Register(source_register_1), Temporary::Spill(source_position_2)) => {
+                // the other operand may itself be the scratch register, which we must not clobber
+                let scratch = if source_register_1 == TEMP { TEMP2 } else { TEMP };
                 instructions.push(Code::LDR(
-                    TEMP,
+                    scratch,
                     Register::SP,
                     stack_offset(source_position_2),
                 ));
-                op(target_register, source_register_1, TEMP, instructions);
+                op(target_register, source_register_1, scratch, instructions);
             }
             (Temporary::Spill(source_position_1), Temporary::Register(source_register_2)) => {
+                // the other operand may itself be the scratch register, which we must not clobber
+                let scratch = if source_register_2 == TEMP { TEMP2 } else { TEMP };
                 instructions.push(Code::LDR(
-                    TEMP,
+                    scratch,
                     Register::SP,
                     stack_offset(source_position_1),
                 ));
-                op(target_register, TEMP, source_register_2, instructions);
+                op(target_register, scratch, source_register_2, instructions);
             }
             (Temporary::Spill(source_position_1), Temporary::Spill(source_position_2)) => {
                 instructions.push(Code::LDR(
@@ -532,20 +536,26 @@ fn op(
                     op(TEMP, source_register_1, source_register_2, instructions);
                 }
                 (Temporary::Register(source_register_1), Temporary::Spill(source_position_2)) => {
+                    // the other operand may itself be the scratch register, which we must not
+                    // clobber
+                    let scratch = if source_register_1 == TEMP { TEMP2 } else { TEMP };
                     instructions.push(Code::LDR(
-                        TEMP,
+                        scratch,
                         Register::SP,
                         stack_offset(source_position_2),
                     ));
-                    op(TEMP, source_register_1, TEMP, instructions);
+                    op(TEMP, source_register_1, scratch, instructions);
                 }
                 (Temporary::Spill(source_position_1), Temporary::Register(source_register_2)) => {
+                    // the other operand may itself be the scratch register, which we must not
+                    // clobber
+                    let scratch = if source_register_2 == TEMP { TEMP2 } else { TEMP };
                     instructions.push(Code::LDR(
-                        TEMP,
+                        scratch,
                         Register::SP,
                         stack_offset(source_position_1),
                     ));
-                    op(TEMP, TEMP, source_register_2, instructions);
+                    op(TEMP, scratch, source_register_2, instructions);
                 }
                 (Temporary::Spill(source_position_1), Temporary::Spill(source_position_2)) => {
                     instructions.push(Code::LDR(
